@@ -466,15 +466,24 @@ def quantified(V, which, gen, st, gi=0, sub=None):
         # all(P(x) for x in a ++ [b] ++ c)  ==  all over a, P(b), all over c   (meta-level split:
         # solvers are weak on seq.nth over concatenations under quantifiers)
         parts = []
-        for kind, term in _concat_parts(it.z):
+        for part in _concat_parts(it.z):
+            kind = part[0]
             s2 = sub.fork()
-            if kind == 'unit':
+            guard = None
+            if kind in ('cunit', 'cseq'):
+                guard, term = part[1], part[2]
+            else:
+                term = part[1]
+            if kind in ('unit', 'cunit'):
                 V.bind_target(g.target, SV(it.t.elem, term), s2, gen)
-                parts.append(_quant_body(V, which, gen, st, gi, s2, None, None))
+                b = _quant_body(V, which, gen, st, gi, s2, None, None)
             else:
                 j = z3.Int(fresh_name('q'))
                 V.bind_target(g.target, SV(it.t.elem, term[j]), s2, gen)
-                parts.append(_quant_body(V, which, gen, st, gi, s2, j, z3.And(j >= 0, j < z3.Length(term))))
+                b = _quant_body(V, which, gen, st, gi, s2, j, z3.And(j >= 0, j < z3.Length(term)))
+            if guard is not None:
+                b = z3.Implies(guard, b) if which == 'all' else z3.And(guard, b)
+            parts.append(b)
         if not parts:
             return SV(BOOL, z3.BoolVal(which == 'all'))
         if len(parts) == 1:
@@ -516,7 +525,26 @@ def _concat_parts(z):
         return [('unit', z.arg(0))]
     if k == z3.Z3_OP_SEQ_EMPTY:
         return []
+    if k == z3.Z3_OP_ITE:
+        # If(c, [x], []) : an element present under condition c (filter over a concrete-length list)
+        c, a, b = z.arg(0), z.arg(1), z.arg(2)
+        pa, pb = _concat_parts(a), _concat_parts(b)
+        if pa is not None and pb is not None:
+            out = []
+            for kind, *rest in pa:
+                out.append(_guard(kind, rest, c))
+            for kind, *rest in pb:
+                out.append(_guard(kind, rest, z3.Not(c)))
+            return out
     return None
+
+
+def _guard(kind, rest, c):
+    if kind == 'unit':
+        return ('cunit', c, rest[0])
+    if kind == 'cunit':
+        return ('cunit', z3.And(c, rest[0]), rest[1])
+    return ('cseq', c, rest[-1]) if kind == 'seq' else ('cseq', z3.And(c, rest[0]), rest[1])
 
 
 def _quant_body(V, which, gen, st, gi, sub, i, dom):
